@@ -48,8 +48,12 @@ GEN_ASSUME = ['TLC evaluates GF2.tla operators correctly (checked against declar
               'contents at 64-bit word size are sampled (structured families + seeded random), not exhaustive']
 
 
+def gf2_mc(tier):
+    return [mcjob('MC_GF2', workers=16, timeout=1200)]
+
+
 def alg(jobs, reasons=ALG_REASONS):
-    return dict(level='model_checking', reasons=reasons, jobs=jobs, mc=lambda tier: [], assumptions=GEN_ASSUME)
+    return dict(level='model_checking', reasons=reasons, jobs=jobs, mc=gf2_mc, assumptions=GEN_ASSUME)
 
 
 ALL_FAMS = [('mul', 480), ('move', 800), ('rowops', 640), ('obs', 640), ('elim', 320), ('ple', 240), ('trsm', 240), ('inv', 160), ('solve', 240), ('kernel', 160)]
@@ -80,7 +84,7 @@ PROPS = {
     'C08': alg(simple_jobs('move', 1600)),
     'C13': alg(simple_jobs('rowops', 1200)),
     'C17': alg(simple_jobs('obs', 1600)),
-    'C01': dict(level='model_checking', reasons=ALG_REASONS, jobs=c01_jobs, mc=lambda tier: [],
+    'C01': dict(level='model_checking', reasons=ALG_REASONS, jobs=c01_jobs, mc=gf2_mc,
                 assumptions=['TLC evaluates GF2.tla operators correctly (checked against declarative twins by MC_GF2)',
                              'the harness logs the raw memory of operands truthfully (memcmp snapshots)',
                              'contents at 64-bit word size are sampled (structured families + seeded random), not exhaustive']),
